@@ -155,9 +155,12 @@ def typed_wraps(wrapped: Func) -> Callable[[Callable], Func]:
 
 def is_subclass(tp: AnyType, base: AnyType) -> bool:
     tp, base = get_origin_or_type(tp), get_origin_or_type(base)
-    return tp == base or (
-        isinstance(tp, type) and isinstance(base, type) and issubclass(tp, base)
-    )
+    if tp == base:
+        return True
+    try:
+        return isinstance(tp, type) and isinstance(base, type) and issubclass(tp, base)
+    except TypeError:  # e.g. TypedDict does not support class checks
+        return False
 
 
 def no_annotated(tp: AnyType) -> AnyType:
